@@ -50,6 +50,7 @@ func cliStressOnce(r *Rng, v6 bool) (desc string, fails []cliStressFail) {
 	closeAfter := time.Duration(r.Range(2, 25)) * time.Millisecond
 	feedN := r.Range(50, 400)
 	desc = fmt.Sprintf("c10stress v6=%v callers=%d xids=%d cap=%d calls=%d T=%s n=%d closeAfter=%s feed=%d", v6, callers, pool, bufCap, perCaller, T, retry, closeAfter, feedN)
+	cliNoteLine(desc)
 	g0 := runtime.NumGoroutine()
 	start := time.Now()
 	conn := &cliStressConn{cliScriptConn: cli_newScriptConn(func() int64 { return int64(time.Since(start)) })}
@@ -245,5 +246,5 @@ func cliOracleC10Stress(r *Rng, n int, thorough bool, seeds []string) *OracleRes
 }
 
 func init() {
-	registerOracle(&Oracle{Name: "c10stress", Run: cliOracleC10Stress})
+	registerOracle(&Oracle{Name: "c10stress", Run: cliCrashGuard("c10stress", cliOracleC10Stress)})
 }
